@@ -183,11 +183,13 @@ CLAIMED['C05']['note'] = TA + ('2-3 devices (one or two members, a late second d
 CLAIMED['C06']['text'] += (' After the handshake: contactRequestsManager.handleIncomingRequest with the handshake result an arbitrary authenticated key and the announced contact free: '
                            'whatever is recorded is a request of exactly that key.')
 CLAIMED['C09']['text'] += (' The same contract, and the first use of a group (two concurrent GetShareableChainKey while the own chain key does not exist yet), under the symbolic '
-                           'scheduler inside the interpreter (DESIGN 4b): every envelope opens at a receiver that registered the announcement it was given.')
+                           'scheduler inside the interpreter (DESIGN 4b): every envelope opens at a receiver that registered the announcement it was given; the own announcement replayed through RegisterChainKey while sending.')
 CLAIMED['C11']['text'] += (' Isolation: a multi-member group with a FREE identifier (possibly a contact account key) used before/after changes neither the contact group nor the member key.')
 CLAIMED['C12']['text'] += (' The descriptor is also derived from a group carrying FREE optional public fields (signing key, link key, its signature).')
 CLAIMED['C13']['text'] += (' The same order-source check for MessageStore.ListEvents (messages of one sender, key known, log processed).')
 CLAIMED['C13']['note'] = CLAIMED['C13']['note'].replace('MessageStore.ListEvents (same two lines; needs the message pipeline), ', '')
+CLAIMED['C13']['text'] += (' The GroupMetadataList RPC with until_now under the symbolic scheduler (handler, listing and forwarding goroutines): returns nil having streamed exactly the listing.')
+CLAIMED['C14']['text'] += (' Two senders in one group: the sliding of one sender window does not disturb the references of the other.')
 CLAIMED['C14']['text'] += (' Sliding: in-order log delivery with the references updated after each message, then a push strictly inside the reference window around the last counter seen.')
 CLAIMED['C15']['text'] += (' The concurrent contract is decided a second time by the symbolic scheduler inside the interpreter (DESIGN 4b) with the real container/list.')
 CLAIMED['C16']['text'] += (' All three components are also decided by the symbolic scheduler inside the interpreter (DESIGN 4b); the connectedness manager with its real maps '
